@@ -108,6 +108,22 @@ mutual
         pure (a :: b)
 end
 
+/-- the framing half of `validateRaw`: `head` = BeginString and BodyLength fields with their delimiters,
+    `tail` = CheckSum field with its delimiter, as re-serialized from the values found -/
+def validateFrame (d head tail csText : Bytes) (bodyLength : Int) : Res Unit :=
+  if d.length < head.length + tail.length then .err
+  else if !(head.isPrefixOf d) then .err
+  else if !(tail.isSuffixOf d) then .err
+  else do
+    let offset : Int := head.length
+    let length : Int := (d.length : Int) - offset - tail.length
+    let last ← byteAt d (offset + length - 1)
+    if last ≠ SOH then .err
+    else if length ≠ bodyLength then .err
+    else do
+      let pre ← sliceTo d (offset + length - 1)
+      if csText ≠ calcCheckSum pre then .err else pure ()
+
 /-- `validateRaw` (the `strict` argument is never read by the code) -/
 def validateRaw (m : Msg) (d : Bytes) : Res Unit := do
   let bs ← scanKV d m.bsTag (Val.newRaw none)
@@ -121,21 +137,8 @@ def validateRaw (m : Msg) (d : Bytes) : Res Unit := do
     | none => .err
     | some bodyLength =>
       match kvBytes m.bsTag bs, kvBytes m.blTag bl, kvBytes m.csTag cs with
-      | some bsB, some blB, some csB => do
-        let head := bsB ++ SOH :: blB ++ [SOH]
-        let tail := csB ++ [SOH]
-        if d.length < head.length + tail.length then .err
-        else if !(head.isPrefixOf d) then .err
-        else if !(tail.isSuffixOf d) then .err
-        else do
-          let offset : Int := head.length
-          let length : Int := (d.length : Int) - offset - tail.length
-          let last ← byteAt d (offset + length - 1)
-          if last ≠ SOH then .err
-          else if length ≠ bodyLength then .err
-          else do
-            let pre ← sliceTo d (offset + length - 1)
-            if cs.text ≠ calcCheckSum pre then .err else pure ()
+      | some bsB, some blB, some csB =>
+        validateFrame d (bsB ++ SOH :: blB ++ [SOH]) (csB ++ [SOH]) cs.text bodyLength
       | _, _, _ => .err
 
 def intIsZero (v : Val) : Bool := v.text = [] || v.text = [48]
